@@ -200,7 +200,9 @@ func c12Corrupt(frame []byte, name string) []byte {
 func VerifC12_Corrupted() {
 	verifOwnDeadlocks()
 	maxSegs := 3
+	c03ShortJunk = true // thorough: junk runs of 1..3 bytes as in quick (50 minutes otherwise)
 	stream, want, frames := c03BuildStream(maxSegs, false)
+	c03ShortJunk = false
 	if len(frames) == 0 {
 		verifAssume(false)
 	}
